@@ -1087,7 +1087,7 @@ def _run_scenario(args):
             kind = "ancestor" if (b == NULL or b in anc) else ("descendant" if t in src_ancestry(src, b) else "sibling")
             pairs.append((b, t, kind))
     rng.shuffle(pairs)
-    quota = dict(ancestor=3, sibling=1, descendant=1) if tier == "quick" else dict(ancestor=12, sibling=5, descendant=2)
+    quota = dict(ancestor=3, sibling=1, descendant=1) if tier == "quick" else dict(ancestor=8, sibling=3, descendant=1)
     chosen = []
     for b, t, kind in pairs:
         if quota[kind] > 0:
@@ -1103,7 +1103,7 @@ def _run_scenario(args):
             if data is None:
                 continue
             if kind != "descendant" and rng.random() < (0.5 if tier == "quick" else 0.8):
-                tamper_bundle(sc, b, t, ver, data, rng, out, 1 if tier == "quick" else 3)
+                tamper_bundle(sc, b, t, ver, data, rng, out, 1 if tier == "quick" else 2)
             if kind == "ancestor" and b != NULL and (first or tier != "quick"):
                 cands = [x for x in rids if x != t and b in src_ancestry(src, x)]
                 if cands:
@@ -1489,7 +1489,7 @@ def run(ctx, nscen=None, ndir=None):
             damaged_case(rng, lines, good, out)
     _merge_out(ctx, dict(out, count=dict(out["count"])), t2)
     # ---- 3. histories, bundles, merges, from_objects ------------------------------------------
-    keys = scenario_keys(ctx, nscen or ctx.pick(6, 36))
+    keys = scenario_keys(ctx, nscen or ctx.pick(6, 20))
     for o in ctx.pmap(scenario_with_directive, keys, chunksize=1):
         _merge_out(ctx, o, t2)
     if t2 and ctx.model_available:
